@@ -44,11 +44,19 @@ func (v *zzVisit) end() {
 // into accepted directories), never runs more callbacks at once than there
 // are consumers, Wait returns after the last callback, callback errors are
 // reported; under every schedule with at most P preemptions.
-func ZZVerifC08Loop() {
-	nd.Schedule(nd.Param("P", 1))
+func ZZVerifC08Loop() { zzLoop(nd.Param("P", 1), nd.Param("SHAPES", 3), nd.Param("C", 1), nd.Param("PR", 1)) }
+
+// ZZVerifC08LoopWide: the same with more producers/consumers and all tree
+// shapes under a smaller preemption bound.
+func ZZVerifC08LoopWide() {
+	zzLoop(nd.Param("WP", 1), nd.Param("WSHAPES", 5), nd.Param("WC", 2), nd.Param("WPR", 2))
+}
+
+func zzLoop(pBound, nShapes, maxC, maxPR int) {
+	nd.Schedule(pBound)
 	fs, _ := memfs.NewFilespace()
 	// tree shape: 0: f        1: f, d/g      2: d/g, d/h      3: empty     4: d/ (empty dir), f
-	shape := nd.Choose("shape", nd.Param("SHAPES", 3))
+	shape := nd.Choose("shape", nShapes)
 	var files, dirs []string
 	w := func(p string) {
 		nd.Assume(fs.WriteFile(p, []byte("x"), filesystem.DefaultUnixFileMode) == nil)
@@ -71,8 +79,8 @@ func ZZVerifC08Loop() {
 		dirs = append(dirs, "./d")
 		w("f")
 	}
-	consumers := 1 + nd.Choose("consumers", nd.Param("C", 1))
-	producers := 1 + nd.Choose("producers", nd.Param("PR", 1))
+	consumers := 1 + nd.Choose("consumers", maxC)
+	producers := 1 + nd.Choose("producers", maxPR)
 	rejectDir := nd.Choose("reject-dir", 2) == 1 && len(dirs) > 0
 	failFile := nd.Bool("fail-file")
 	v := &zzVisit{seen: map[string]int{}}
